@@ -1962,6 +1962,7 @@ class C11(Base):
         Base.__init__(self, prop, program)
         self.notes = []  # [obj, (name, octave)]
         self.conts = []  # dict(kind, obj, model=[entries]) entries: list of (value, beat, [ (name,oct) ] | None)
+        self.stepped = set()  # containers that went through a transpose/augment/diminish already
 
     def state(self):
         return [list(n[1]) for n in self.notes] + [[c["kind"], [[None if e is None else [list(x) for x in e]] for e in c["model"]]] for c in self.conts]
@@ -2220,6 +2221,7 @@ class C11(Base):
         except Exception as e:
             exc = e
         self.clauses["C11.lift"] += 1
+        self.stepped.add(id(obj))
         feats = {"op": "c_" + what, "level": kind}
         self.trace.ev("c_op", op["target"], kind, what, sh, up, type(exc).__name__ if exc else None)
         if any(e is None for e in c["model"]):
@@ -2257,6 +2259,64 @@ class C11(Base):
                 self.fail("C11.lift", "%s.%s(%s): %s" % (kind, what, (sh, up) if what == "transpose" else "", bad), **feats)
             c["model"] = [None if e is None else [(n, o) for (n, o) in e] for e in self._read(obj, kind)]
         self.note_outcome("c_" + what + ":" + kind, "raised" if exc else "accepted", self.state())
+
+    def do_c_edit(self, op):
+        """an edit of the container between two transposition steps (the 'history' the property
+        quantifies over): an entry replaced in place, a rest turned into notes, the last entry taken
+        off and another put there, an entry or a note appended or removed.  The edit itself is judged
+        by C12-C14; here it only changes what the next transpose/augment/diminish has to reach, so the
+        model is re-read from the stored lists afterwards."""
+        if not self.conts:
+            return
+        from mingus.containers.note import Note
+        from mingus.containers.note_container import NoteContainer
+
+        c = self.conts[op["target"] % len(self.conts)]
+        kind, obj = c["kind"], c["obj"]
+        how = op["how"]
+        fresh = lambda: [Note(n, o) for n, o in op["notes"]]
+        done = None
+        try:
+            if kind == "nc":
+                if how in ("append", "setitem") and op["notes"]:
+                    obj.add_notes(fresh())
+                    done = "nc_add"
+                elif len(obj.notes) > 1:
+                    obj.remove_note(obj.notes[op["index"] % len(obj.notes)])
+                    done = "nc_remove"
+            else:
+                bars = [obj] if kind == "bar" else [b for b in obj.bars]
+                bars = [b for b in bars if len(b.bar) > 0]
+                if bars:
+                    b = bars[op["bar"] % len(bars)]
+                    i = op["index"] % len(b.bar)
+                    if how == "setitem":
+                        was_rest = b.bar[i][2] is None
+                        b[i] = NoteContainer(fresh()) if op.get("as_nc", True) else fresh()
+                        done = "rest_to_notes" if was_rest else "setitem"
+                    elif how == "relast":
+                        v = b.bar[-1][1]
+                        b.remove_last_entry()
+                        b.place_notes(fresh(), v)
+                        done = "relast"
+                    elif how == "append":
+                        v = score.sym_value(op["v"])
+                        ok = b.place_notes(fresh(), v) if kind == "bar" else obj.add_notes(fresh(), v)
+                        done = "append" if ok else "append_refused"
+                    else:
+                        if len(b.bar) > 1:
+                            b.remove_last_entry()
+                            done = "remove_last"
+        except Exception as e:
+            done = "raised:" + type(e).__name__
+        self.trace.ev("c_edit", op["target"], kind, how, done)
+        if done is None:
+            return
+        self.probes["edit_between_steps:" + done.split(":")[0]] += 1
+        if id(obj) in getattr(self, "stepped", ()):
+            self.probes["edit_after_an_earlier_step_on_the_same_container"] += 1
+        c["model"] = [None if e is None else [(n, o) for (n, o) in e] for e in self._read(obj, kind)]
+        self.note_outcome("c_edit:" + kind + ":" + done.split(":")[0], "raised" if done.startswith("raised") else "accepted", self.state())
 
     def do_c_augdim(self, op):
         """augment followed by diminish is the identity on names, at every level"""
@@ -2296,6 +2356,7 @@ C11_NAMES = ["C", "D", "E", "F", "G", "A", "B", "C#", "D#", "F#", "G#", "A#", "D
 
 def gen_c11(rng, tier):
     cfg = {"mode": rng.choice(["notes", "notes", "containers", "containers", "all"])}
+    cfg["edits"] = cfg["mode"] != "notes" and rng.random() < 0.5  # containers edited between the steps
     ops = []
     nn = rng.randrange(1, 4)
     for _ in range(nn):
@@ -2340,6 +2401,11 @@ def gen_c11(rng, tier):
         r = rng.random()
         if cfg["mode"] == "containers" or (cfg["mode"] == "all" and r < 0.5):
             rr = rng.random()
+            if cfg.get("edits") and rng.random() < 0.3:
+                ns = entries(1)[0]["notes"] or [spec()]
+                ops.append({"op": "c_edit", "target": rng.randrange(max(1, nc)), "how": rng.choice(["setitem", "setitem", "relast", "append", "remove"]), "bar": rng.randrange(8), "index": rng.randrange(8),
+                            "notes": ns, "as_nc": rng.random() < 0.7, "v": rng.choice([[4, 0, 1, 1], [8, 0, 1, 1], [16, 0, 1, 1], [2, 0, 1, 1]])})
+                continue
             if rr < 0.6:
                 ops.append({"op": "c_op", "target": rng.randrange(max(1, nc)), "what": "transpose", "sh": rng.choice(SH_ALL), "up": rng.random() < 0.5})
             elif rr < 0.8:
@@ -2407,7 +2473,7 @@ DESCR = {
     "C11": {
         "rule": "Each run is one seeded history on a world built without aliasing (every Note is created for its place): transpose(shorthand, up) with the interval shorthands of size 0-11, augment, diminish, change_octave/octave_up/octave_down and up-then-down round trips on notes; transpose/augment/diminish and augment-then-diminish on note containers, bars and tracks (notes, chords, rests, mixed durations); sequences of them. Model: letter moves by (degree-1), pitch by +-size. Non-trivial = at least two operations applied. Distinct = distinct run shape.",
         "clauses": ["C11.exact", "C11.round_trip", "C11.lift", "C11.aug_dim", "C11.octave_floor", "C11.stall"],
-        "probes": ["grid:up", "grid:down", "container_with_rest", "octave_floor_hit", "transposed_below_octave_0", "track_from_chords_with_splits", "skipped_outside_name_domain", "theory_chatter_ops", "theory_chatter_call_refused", "theory_chatter_call_cut_short"],
+        "probes": ["grid:up", "grid:down", "container_with_rest", "octave_floor_hit", "transposed_below_octave_0", "track_from_chords_with_splits", "skipped_outside_name_domain", "edit_between_steps:setitem", "edit_between_steps:rest_to_notes", "edit_between_steps:relast", "edit_between_steps:append", "edit_between_steps:append_refused", "edit_between_steps:remove_last", "edit_between_steps:nc_add", "edit_between_steps:nc_remove", "edit_between_steps:raised", "edit_after_an_earlier_step_on_the_same_container", "theory_chatter_ops", "theory_chatter_call_refused", "theory_chatter_call_cut_short"],
         "assumptions": ["the single-note clauses are pure functions of their input; they ride along inside histories because the history engine calls them anyway", "names are the 35 spelled names of the property's grid (a letter with at most two sharps or two flats); a history that has drifted to more accidentals is not judged until the note is set again (counted as skipped_outside_name_domain), because the library spells at most six accidentals and the statement's quantifier does not reach there", "round trips are demanded for canonical names only (only sharps or only flats)", "transposition has no floor: from octave 0 downwards the pitch number goes negative exactly (only change_octave clamps); invalid shorthands are not generated (the statement is silent)"],
     },
     "C14": {
